@@ -92,6 +92,49 @@ func ZZ_C05_PingFailureDetach() {
 	zzReach("C05.ping.detached")
 }
 
+// C05 (the other order of notice): the controller detaches a replica whose connection is
+// still healthy - it answered an I/O with an error, it was removed, a rebuild took its
+// place - and only afterwards does the rpc client see the connection go (the replica
+// exits).  The client's notification (rpc.Client.handleResponse: c.closeChan <- ...) arrives
+// at a backend that has been closed; it must neither block for ever nor bring the
+// controller process down.
+func ZZ_C05_DetachThenConnectionLoss() {
+	zzmodel.Reset()
+	addr := "tcp://h1:9502"
+	m := zzmodel.New(addr)
+	m.State = "closed"
+	zzmodel.NoFaults = true
+	zzDials, zzDialOK = 0, true
+	zzPingErr = nil
+	b, err := (&Factory{}).Create(addr)
+	zzDialOK = false
+	zzAssert(err == nil && b != nil, "C05.detach-first.attach-failed")
+	if b == nil {
+		return
+	}
+	zzSettle()
+	if zzNondetBool("marked-failed-before-removal") {
+		b.StopMonitoring() // setReplicaModeNoLock(ERR) -> replicator.SetMode -> StopMonitoring
+	}
+	b.Close() // RemoveBackend -> Close -> StopMonitoring
+	zzSettle()
+	mc := b.GetMonitorChannel()
+	zzAssert(len(mc) == 1, "C05.detach-first.monitor-did-not-report-its-clean-stop")
+	// later the connection drops: once for the failed read loop, possibly again for a
+	// request that was in flight
+	n := 1 + zzConcretize(zzChoice("notifications", 2))
+	done := make(chan bool, 1)
+	go func() {
+		for i := 0; i < n; i++ {
+			zzClientCloseChan <- struct{}{}
+		}
+		done <- true
+	}()
+	zzSettle()
+	zzAssert(len(done) == 1, "C05.detach-first.rpc-client-blocked-for-ever-notifying-a-detached-backend")
+	zzReach("C05.detach-first.done")
+}
+
 // C17: a replica can be attached only while it is closed (so never twice).
 func ZZ_C17_FactoryCreate() {
 	zzmodel.Reset()
